@@ -121,7 +121,7 @@ func plans(id, tier string) (Plan, bool) {
 		return Plan{Level: "exploration", Jobs: []Job{
 			{Pkg: pkgV2, Harness: "c07_small", Shards: pick(6, 16)},
 			{Pkg: pkgV2, Harness: "c07_small", Params: fmt.Sprintf("vocab=accented;maxlen=%d", pick(6, 8)), Shards: pick(4, 16)},
-			{Pkg: pkgV2, Harness: "c07_corpus", Params: "t=0.8;families=exact,edit1,periodic,truncate,concat,scenario" + map[bool]string{false: ",scatter,edit2", true: ""}[th], Shards: 16},
+			{Pkg: pkgV2, Harness: "c07_corpus", Params: "t=0.8;families=exact,edit1,periodic,truncate,concat,scenario", Shards: 16},
 			{Pkg: pkgV2, Harness: "c07_corpus", Params: "t=0.8;docs=c07findings;families=scatter,periodic", Shards: 7},
 			{Pkg: pkgV2, Harness: "c07_corpus", Params: "t=0.8;families=partnoise,exact,truncate;contexts=huge;ndocs=" + fmt.Sprint(pick(24, 120)), Shards: 16},
 			{Pkg: pkgV2, Harness: "c07_corpus", Params: "t=0.8;families=exact,partnoise;contexts=pow2;ndocs=" + fmt.Sprint(pick(6, 40)), Shards: 16},
